@@ -87,7 +87,9 @@ async def scenario(loop, case, out, stats, fps, samples):
             if mode == "reject" and t == "own" and rnd.random() < 0.35:
                 params = P(retries=RetriesProperties(max_amount=3, already_tried=1), delay=DelayProperties(next_execution_time=_dt.now() - _td(seconds=rnd.choice([0.5, 5, 60]))))
                 stale.add(id_)
-            await mb.enqueue(key_of(conn, id_, t, "q", case["prio"]), f"p{seq}", params)
+            # every fifth body is large (70 KiB): size must not influence the order
+            body = f"p{seq}" + ("x" * 70_000 if seq % 5 == 2 else "")
+            await mb.enqueue(key_of(conn, id_, t, "q", case["prio"]), body, params)
             order[id_] = seq
             if t == "own":
                 own.add(id_)
